@@ -94,8 +94,11 @@ def h_worker(g0: int, g1: int, g2: int, d0: int, d1: int, d2: int, v0: int, v1: 
     vkopf.begin_path()
     r0, r1, v1, v2 = vkopf.pin('r0', r0), vkopf.pin('r1', r1), vkopf.pin('v1', v1), vkopf.pin('v2', v2)
     n = vkopf.cell('n', 3)
+    g0 = 0                     # the first arrival is the origin of time (w.l.o.g.)
+    durs = [d0, d1, d2][:n]
+    durs[-1] = 0               # the duration of the last processing is unobservable (nothing follows it)
     try:
-        calls = run_worker([g0, g1, g2][:n], [d0, d1, d2][:n], [v0, v1, v2][:n], [r0, r1, r2][:n], T, idle, ties=[t0, t1, t2, t3])
+        calls = run_worker([g0, g1, g2][:n], durs, [v0, v1, v2][:n], [r0, r1, r2][:n], T, idle, ties=[t0, t1, t2, t3])
     except (Deadlock, Diverged, Livelock):
         return vkopf.verdict(False)
     if len(calls) != n:
@@ -190,6 +193,7 @@ def h_step(delta: int, has_ct: bool, has_pressure: bool, pressure_at: int, remai
     """
     vkopf.begin_path()
     remaining, deleting = vkopf.pin('remaining', remaining), vkopf.pin('deleting', deleting)
+    has_ct, handled, has_pressure = vkopf.pin('has_ct', has_ct), vkopf.pin('handled', handled), vkopf.pin('has_pressure', has_pressure)
     if remaining and deleting:
         return True
     try:
@@ -253,8 +257,19 @@ def lemma(cell=None):
 
 
 def obligations():
-    obs = split(Ob('h_worker', {'n': 2}, timeout=1500, twins=['echo_arrived', 'awaiting']), r0=[0, 1, 2], v1=[0, 1, 2])
+    B = [False, True]
+    obs = []
+    for (r0, v1) in ((1, 1), (1, 0), (2, 1), (0, 2)):
+        obs.append(Ob('h_worker', {'n': 2, 'pin': {'r0': r0, 'v1': v1}}, tiers=('quick',), timeout=900))
+    obs.append(Ob('h_worker', {'n': 2}, tiers=('quick', 'thorough'), timeout=600, twins=['echo_arrived', 'awaiting', 'expired'], main=False))
+    obs += split(Ob('h_worker', {'n': 2}, timeout=1500, tiers=('thorough',)), r0=[0, 1, 2], v1=[0, 1, 2])
     obs += split(Ob('h_worker', {'n': 3}, timeout=3400, tiers=('thorough',)), r0=[0, 1, 2], r1=[0, 1, 2], v1=[0, 1, 2], v2=[0, 1, 2])
-    obs += split(Ob('h_step', {}, timeout=2400, path_timeout=200, twins=['change_ran', 'woken_skipped']), remaining=[False, True], deleting=[False, True])
+    for (remaining, deleting, has_ct, handled, has_pressure) in ((False, False, True, True, True), (False, False, True, False, False),
+                                                                  (True, False, True, True, True), (False, True, True, True, True),
+                                                                  (False, False, False, True, False)):
+        obs.append(Ob('h_step', {'pin': {'remaining': remaining, 'deleting': deleting, 'has_ct': has_ct, 'handled': handled,
+                                         'has_pressure': has_pressure}}, tiers=('quick',), timeout=900, path_timeout=200))
+    obs.append(Ob('h_step', {}, tiers=('quick', 'thorough'), timeout=600, path_timeout=200, twins=['change_ran', 'woken_skipped'], main=False))
+    obs += split(Ob('h_step', {}, timeout=1500, path_timeout=200, tiers=('thorough',)), remaining=B, deleting=B, has_ct=B, handled=B, has_pressure=B)
     obs.append(Ob('lemma', {}, engine='smt', timeout=60))
     return obs
